@@ -55,7 +55,7 @@ def required_cells(tier):
              "member:yes", "member:no-extension", "member:no-excluded", "member:no-outside", "member:no-directory",
              "member:no-missing", "iter", "outside:sibling-with-root-prefix", "name:vcs-directory", "name:tilde-first",
              "patterns:extended-after-first-use", "patterns:default-list-mutated-on-another-object", "name:canonically-equivalent-spellings",
-             "multi-directory:non-existent-directory-listed", "name:dots-and-extension"]
+             "multi-directory:non-existent-directory-listed", "name:dots-and-extension", "spell:unresolvable"]
     return cells
 
 
@@ -252,8 +252,12 @@ def spellings(root, rel, rng, tree):
 
 def expected_member(root, realroot, path, cwd, ignored_cache):
     full = path if os.path.isabs(path) else os.path.join(os.path.realpath(cwd), path)
-    real = os.path.realpath(full)
-    if not os.path.exists(real):
+    try:
+        real = os.path.realpath(full)
+        there = os.path.exists(real)
+    except (OSError, ValueError):
+        return False, "missing", None        # a name the operating system refuses to look up names no file
+    if not there:
         return False, "missing", None
     if os.path.isdir(real):
         return False, "directory", None
@@ -329,6 +333,11 @@ def check_case(ctx, git, tree, patterns, feats, base, cls):
         b = os.path.basename(f)
         for d in [""] + real_dirs:
             queries.append((os.path.normpath(os.path.join(d, b)), "same-spelling-other-cwd", b, os.path.join(root, d) if d else root))
+    # paths that name no file at all and that the operating system refuses to look up: a component longer than NAME_MAX,
+    # a path longer than PATH_MAX, an embedded NUL -- they are simply not members
+    queries.append(("x" * 300 + ".c", "unresolvable", os.path.join(root, "x" * 300 + ".c"), root))
+    queries.append(("deep/" * 1200 + "y.c", "unresolvable", os.path.join(root, "d/" * 2100 + "y.c"), root))
+    queries.append(("nul\0byte.c", "unresolvable", os.path.join(root, "nul\0byte.c"), root))
     for rel in rels:
         for kind, path, cwd in spellings(root, rel, rng, tree):
             queries.append((rel, kind if not any(rel == l or rel.startswith(l + "/") for l in tree["links"]) else "via-link", path, cwd or root))
